@@ -31,8 +31,8 @@ Fixpoint split_on (d : N) (s cur : text) : list text :=
 Definition all_dots (s : text) : bool := forallb (N.eqb ch_dot) s.
 Definition lstrip_dots (s : text) : text := dropwhile (N.eqb ch_dot) s.
 
-(* s.find("..") > 0 *)
-Fixpoint find_dd_pos (s : text) : bool :=
+(* s.find of two dots is positive *)
+Definition find_dd_pos (s : text) : bool :=
   match s with
   | _ :: r => contains [ch_dot; ch_dot] r
   | [] => false
@@ -47,11 +47,11 @@ Definition numeric_model (r : numres) : option model :=
   end.
 
 Section Reader.
-Variable O : oracle.
+Variable W : oracle.
 
 (* a dot-free piece of a dotted identifier: must come out as a symbol *)
 Definition part_symbol (p : text) : option model :=
-  match num O p with NotNum => Some (MSym p) | _ => None end.
+  match num W p with NotNum => Some (MSym p) | _ => None end.
 
 Fixpoint all_some {A} (l : list (option A)) : option (list A) :=
   match l with
@@ -61,7 +61,7 @@ Fixpoint all_some {A} (l : list (option A)) : option (list A) :=
   end.
 
 Definition as_identifier (id : text) : option model :=    (* None = LexException *)
-  match numeric_model (num O id) with
+  match numeric_model (num W id) with
   | Some m => Some m
   | None =>
     if mem ch_dot id then
@@ -95,8 +95,7 @@ Inductive cstate := StQuote (escaping : bool) | StDelim (index : option nat) | S
 Inductive cstep := ClClosed (n : nat) | ClCont (st : cstate) | ClErr.
 
 Definition escape_ok (bytes : bool) (c : N) : bool :=
-  mem c ([10; 13; 92; 39; 34; 97; 98; 102; 110; 114; 116; 118; 48; 49; 50; 51; 52; 53; 54; 55; 120]
-         ++ (if bytes then [] else [78; 117; 85])).
+  mem c (rd_escapes ++ (if bytes then rd_escapes_bytes_extra else rd_escapes_str_extra)).
 
 Definition close_step (cl : closing) (st : cstate) (c : N) : cstep :=
   match cl, st with
@@ -155,7 +154,7 @@ Fixpoint chars_until (cl : closing) (fm raw : bool) (st : cstate) (named : bool)
       end
   end.
 
-(* .replace("\r\n", "\n").replace("\r", "\n") *)
+(* the two str.replace calls: CR LF to LF, then CR to LF *)
 Fixpoint norm_newlines (s : text) : text :=
   match s with
   | [] => []
@@ -229,7 +228,7 @@ Fixpoint unescape (bytes : bool) (fuel : nat) (s : text) : option text :=
                       if N.eqb o c_lc then
                         let '(nm, r4) := span (fun x => negb (N.eqb x c_rc)) r3 in
                         match r4 with
-                        | _ :: r5 => match ulookup O nm with Some v => cons_ v r5 | None => None end
+                        | _ :: r5 => match ulookup W nm with Some v => cons_ v r5 | None => None end
                         | [] => None
                         end
                       else None
@@ -305,7 +304,7 @@ Definition prefix_flags (p : text) : option (bool * bool * fmode) :=
   let has c := mem c p in
   let r := has 114 in let b := has 98 in let f := has 102 in let t := has 116 in
   let distinct := forallb (fun c => Nat.eqb (count_c c p) 1) p in
-  let subset := forallb (fun c => mem c [98; 102; 114; 116]) p in
+  let subset := forallb (fun c => mem c rd_prefix_alphabet) p in
   let proper := negb (r && b && f && t) in
   let others := ((if b then 1 else 0) + (if f then 1 else 0) + (if t then 1 else 0))%nat in
   if distinct && subset && proper && Nat.leb others 1
@@ -322,8 +321,8 @@ Inductive disp :=
 | DInvalid                          (* ) ] }           INVALID *)
 | DComment                          (* ;               line_comment *)
 | DKeyword                          (* :               keyword *)
-| DString                           (* "               prefixed_string with no prefix *)
-| DTag (root : text)                (* ' `             tag_as *)
+| DString                           (* dquote          prefixed_string with no prefix *)
+| DTag (root : text)                (* quote backquote tag_as *)
 | DUnquote                          (* ~               unquote *)
 | DHash                             (* #               tag_dispatch *)
 | DDefault.                         (* anything else   read_default *)
@@ -371,210 +370,244 @@ Definition mkexpr (root : text) (args : list model) : model := MNode KExpr (MSym
 
 Definition is_str_empty (s : text) : bool := match s with [] => true | _ => false end.
 
+Definition set_tstring (m : model) : model :=
+  match m with
+  | MNode (KFComp cv _) ms => MNode (KFComp cv true) ms
+  | x => x
+  end.
+
+(* The bodies of the reader's methods, with the recursive calls abstracted as [rec]. *)
+Section Bodies.
+Variable rec : mode -> text -> res.
+
+(* read_string_until, after the opening delimiter *)
+Definition read_string_body (cl : closing) (raw bytes : bool) (fm : fmode) (br : option text) (body : text) : res :=
+  match fm with
+  | FmNone =>
+      match chars_until cl false raw (init_state cl) false [] body with
+      | CUErr e => RErr e
+      | CUDone content _ rest _ =>
+          match decode raw bytes content with
+          | None => RErr ELex
+          | Some v => match mk_string bytes v br with
+                      | Some m => RForm (Some m) rest
+                      | None => RErr ELex
+                      end
+          end
+      end
+  | _ =>
+      match rec (RdFComps cl (init_state cl) raw []) body with
+      | RSeq comps rest =>
+          let ts := match fm with FmT => true | _ => false end in
+          let comps' := if ts then map set_tstring comps else comps in
+          match mk_fstring comps' br ts with
+          | Some m => RForm (Some m) rest
+          | None => RErr ELex
+          end
+      | x => x
+      end
+  end.
+
+(* bracketed_string, after the two characters that select it *)
+Definition bracket_body (r1 : text) : res :=
+  let '(delim, r3) := span (fun x => negb (N.eqb x c_lb || N.eqb x c_rb)) r1 in
+  match r3 with
+  | [] => RErr EPremature
+  | c3 :: r4 =>
+    if N.eqb c3 c_rb then RErr ELex
+    else
+      let fm := if text_eqb delim [102] || starts_with [102; c_minus] delim then FmF else FmNone in
+      let r5 := match r4 with x :: t => if N.eqb x c_cr then t else r4 | [] => r4 end in
+      let r6 := match r5 with x :: t => if N.eqb x c_nl then t else r5 | [] => r5 end in
+      read_string_body (CDelim delim) true false fm (Some delim) r6
+  end.
+
+(* tag_dispatch, after the hash character *)
+Definition hash_body (r : text) : res :=
+  match r with
+  | [] => RErr EPremature
+  | c2 :: r2 =>
+    if is_pyspace c2 then RErr EPremature
+    else
+      let '(id0, r0) := span_ident r in
+      let '(ident, r1) := match id0 with [] => ([c2], r2) | _ => (id0, r0) end in
+      match hash_lookup ident with
+      | None => RErr ELex
+      | Some (HSeq k closer) =>
+          match rec (RdSeq (Some closer) []) r1 with
+          | RSeq ms r' => RForm (Some (MNode k ms)) r'
+          | x => x
+          end
+      | Some HDiscard =>
+          match rec RdOne r1 with
+          | ROne _ r' => RForm None r'
+          | x => x
+          end
+      | Some (HUnpack root) =>
+          match rec RdOne r1 with
+          | ROne m r' => RForm (Some (mkexpr root [m])) r'
+          | x => x
+          end
+      | Some HAnnotate =>
+          match rec RdOne r1 with
+          | ROne typ r' =>
+              match rec RdOne r' with
+              | ROne target r'' => RForm (Some (mkexpr s_annotate [target; typ])) r''
+              | x => x
+              end
+          | x => x
+          end
+      | Some HBracket => bracket_body r1
+      end
+  end.
+
+(* read_default *)
+Definition default_body (c : N) (r : text) : res :=
+  let '(idt, r') := span_ident r in
+  let id := c :: idt in
+  match r' with
+  | q :: body =>
+      if N.eqb q c_dq then
+        match prefix_flags id with
+        | None => RErr ELex
+        | Some (raw, bytes, fm) => read_string_body (CQuote raw bytes) raw bytes fm None body
+        end
+      else match as_identifier id with Some m => RForm (Some m) r' | None => RErr ELex end
+  | [] => match as_identifier id with Some m => RForm (Some m) r' | None => RErr ELex end
+  end.
+
+(* try_parse_one_form *)
+Definition form_body (s : text) : res :=
+  match skip_ws s with
+  | [] => RErr EPremature
+  | c :: r =>
+    match dispatch c with
+    | DOpen k closer =>
+        match rec (RdSeq (Some closer) []) r with
+        | RSeq ms r' => RForm (Some (MNode k ms)) r'
+        | x => x
+        end
+    | DInvalid => RErr ELex
+    | DComment => RForm None (drop_line r)
+    | DKeyword =>
+        let '(id, r') := span_ident r in
+        if mem ch_dot id then RErr ELex else RForm (Some (MKw id)) r'
+    | DString => read_string_body (CQuote false false) false false FmNone None r
+    | DTag root =>
+        match rec RdOne r with
+        | ROne m r' => RForm (Some (mkexpr root [m])) r'
+        | x => x
+        end
+    | DUnquote =>
+        let '(root, r1) := match r with
+                           | c2 :: r2 => if N.eqb c2 c_at then (s_unquote_splice, r2) else (s_unquote, r)
+                           | [] => (s_unquote, r)
+                           end in
+        match rec RdOne r1 with
+        | ROne m r' => RForm (Some (mkexpr root [m])) r'
+        | x => x
+        end
+    | DHash => hash_body r
+    | DDefault => default_body c r
+    end
+  end.
+
+(* parse_one_form *)
+Definition one_body (s : text) : res :=
+  match rec RdForm s with
+  | RForm (Some m) r => ROne m r
+  | RForm None r => rec RdOne r
+  | x => x
+  end.
+
+(* parse_forms_until *)
+Definition seq_body (closer : option N) (acc : list model) (s : text) : res :=
+  match skip_ws s, closer with
+  | [], None => RSeq (rev acc) []
+  | [], Some _ => RErr EPremature
+  | c :: r, _ =>
+      if match closer with Some k => N.eqb c k | None => false end then RSeq (rev acc) r
+      else match rec RdForm (c :: r) with
+           | RForm (Some m) r' => rec (RdSeq closer (m :: acc)) r'
+           | RForm None r' => rec (RdSeq closer acc) r'
+           | x => x
+           end
+  end.
+
+(* read_fcomponents_until *)
+Definition fcomps_body (cl : closing) (st : cstate) (raw : bool) (acc : list model) (s : text) : res :=
+  match chars_until cl true raw st false [] s with
+  | CUErr e => RErr e
+  | CUDone content closed rest st' =>
+      match decode raw false content with
+      | None => RErr ELex
+      | Some v =>
+          let acc' := if is_str_empty v then acc else MStr v None :: acc in
+          if closed then RSeq (rev acc') rest
+          else match rec (RdFComp raw false) rest with
+               | RSeq cs rest' => rec (RdFComps cl st' raw (rev cs ++ acc')) rest'
+               | x => x
+               end
+      end
+  end.
+
+(* read_fcomponent *)
+Definition fcomp_body (raw ts : bool) (s : text) : res :=
+  let '(sp1, s1) := span is_ws s in
+  match rec RdOne s1 with
+  | ROne m s2 =>
+      let form_text := firstn (length s1 - length s2) s1 in
+      let '(sp2, s3) := span is_ws s2 in
+      let '(dbg, s4) := match s3 with
+                        | e :: t => if N.eqb e c_eq
+                                    then let '(sp3, t') := span is_ws t in
+                                         (Some (sp1 ++ form_text ++ sp2 ++ [c_eq] ++ sp3), t')
+                                    else (None, s3)
+                        | [] => (None, s3)
+                        end in
+      (* a bang at the very end of input makes conversion empty, and the field then fails below *)
+      let '(conv, s5) := match s4 with
+                         | b :: t => if N.eqb b c_bang
+                                     then match t with
+                                          | cv :: t' => (Some cv, t')
+                                          | [] => (None, t)
+                                          end
+                                     else (None, s4)
+                         | [] => (None, s4)
+                         end in
+      let s6 := skip_ws s5 in
+      let pre := match dbg with Some d => [MStr d None] | None => [] end in
+      match s6 with
+      | k :: t =>
+          if N.eqb k c_colon then
+            match rec (RdFComps CBrace StNone raw []) t with
+            | RSeq spec rest => RSeq (pre ++ [MNode (KFComp conv ts) (m :: spec)]) rest
+            | x => x
+            end
+          else if N.eqb k c_rc then
+            let cv := match conv, dbg with
+                      | None, Some _ => Some 114      (* has_debug and conversion is None: r *)
+                      | _, _ => conv
+                      end in
+            RSeq (pre ++ [MNode (KFComp cv ts) [m]]) t
+          else RErr ELex
+      | [] => RErr ELex
+      end
+  | x => x
+  end.
+
+End Bodies.
+
 Fixpoint rd (fuel : nat) (md : mode) (s : text) {struct fuel} : res :=
   match fuel with
   | O => ROut
   | S f =>
-    (* read_string_until after the opening delimiter *)
-    let read_string (cl : closing) (raw bytes : bool) (fm : fmode) (br : option text) (body : text) : res :=
-      match fm with
-      | FmNone =>
-          match chars_until cl false raw (init_state cl) false [] body with
-          | CUErr e => RErr e
-          | CUDone content _ rest _ =>
-              match decode raw bytes content with
-              | None => RErr ELex
-              | Some v => match mk_string bytes v br with
-                          | Some m => RForm (Some m) rest
-                          | None => RErr ELex
-                          end
-              end
-          end
-      | _ =>
-          match rd f (RdFComps cl (init_state cl) raw []) body with
-          | RSeq comps rest =>
-              let ts := match fm with FmT => true | _ => false end in
-              let comps' := if ts then map (fun m => match m with
-                                                     | MNode (KFComp cv _) ms => MNode (KFComp cv true) ms
-                                                     | x => x end) comps
-                            else comps in
-              match mk_fstring comps' br ts with
-              | Some m => RForm (Some m) rest
-              | None => RErr ELex
-              end
-          | x => x
-          end
-      end in
     match md with
-    | RdForm =>
-        match skip_ws s with
-        | [] => RErr EPremature
-        | c :: r =>
-          match dispatch c with
-          | DOpen k closer =>
-              match rd f (RdSeq (Some closer) []) r with
-              | RSeq ms r' => RForm (Some (MNode k ms)) r'
-              | x => x
-              end
-          | DInvalid => RErr ELex
-          | DComment => RForm None (drop_line r)
-          | DKeyword =>
-              let '(id, r') := span_ident r in
-              if mem ch_dot id then RErr ELex else RForm (Some (MKw id)) r'
-          | DString => read_string (CQuote false false) false false FmNone None r
-          | DTag root =>
-              match rd f RdOne r with
-              | ROne m r' => RForm (Some (mkexpr root [m])) r'
-              | x => x
-              end
-          | DUnquote =>
-              let '(root, r1) := match r with
-                                 | c2 :: r2 => if N.eqb c2 c_at then (s_unquote_splice, r2) else (s_unquote, r)
-                                 | [] => (s_unquote, r)
-                                 end in
-              match rd f RdOne r1 with
-              | ROne m r' => RForm (Some (mkexpr root [m])) r'
-              | x => x
-              end
-          | DHash =>
-              match r with
-              | [] => RErr EPremature
-              | c2 :: r2 =>
-                if is_pyspace c2 then RErr EPremature
-                else
-                  let '(id0, r0) := span_ident r in
-                  let '(ident, r1) := match id0 with [] => ([c2], r2) | _ => (id0, r0) end in
-                  match hash_lookup ident with
-                  | None => RErr ELex
-                  | Some (HSeq k closer) =>
-                      match rd f (RdSeq (Some closer) []) r1 with
-                      | RSeq ms r' => RForm (Some (MNode k ms)) r'
-                      | x => x
-                      end
-                  | Some HDiscard =>
-                      match rd f RdOne r1 with
-                      | ROne _ r' => RForm None r'
-                      | x => x
-                      end
-                  | Some (HUnpack root) =>
-                      match rd f RdOne r1 with
-                      | ROne m r' => RForm (Some (mkexpr root [m])) r'
-                      | x => x
-                      end
-                  | Some HAnnotate =>
-                      match rd f RdOne r1 with
-                      | ROne typ r' =>
-                          match rd f RdOne r' with
-                          | ROne target r'' => RForm (Some (mkexpr s_annotate [target; typ])) r''
-                          | x => x
-                          end
-                      | x => x
-                      end
-                  | Some HBracket =>
-                      let '(delim, r3) := span (fun x => negb (N.eqb x c_lb || N.eqb x c_rb)) r1 in
-                      match r3 with
-                      | [] => RErr EPremature
-                      | c3 :: r4 =>
-                        if N.eqb c3 c_rb then RErr ELex
-                        else
-                          let fm := if text_eqb delim [102] || starts_with [102; c_minus] delim then FmF else FmNone in
-                          let r5 := match r4 with x :: t => if N.eqb x c_cr then t else r4 | [] => r4 end in
-                          let r6 := match r5 with x :: t => if N.eqb x c_nl then t else r5 | [] => r5 end in
-                          read_string (CDelim delim) true false fm (Some delim) r6
-                      end
-                  end
-              end
-          | DDefault =>
-              let '(idt, r') := span_ident r in
-              let id := c :: idt in
-              match r' with
-              | q :: body =>
-                  if N.eqb q c_dq then
-                    match prefix_flags id with
-                    | None => RErr ELex
-                    | Some (raw, bytes, fm) => read_string (CQuote raw bytes) raw bytes fm None body
-                    end
-                  else match as_identifier id with Some m => RForm (Some m) r' | None => RErr ELex end
-              | [] => match as_identifier id with Some m => RForm (Some m) r' | None => RErr ELex end
-              end
-          end
-        end
-    | RdOne =>
-        match rd f RdForm s with
-        | RForm (Some m) r => ROne m r
-        | RForm None r => rd f RdOne r
-        | x => x
-        end
-    | RdSeq closer acc =>
-        match skip_ws s, closer with
-        | [], None => RSeq (rev acc) []
-        | [], Some _ => RErr EPremature
-        | c :: r, _ =>
-            if match closer with Some k => N.eqb c k | None => false end then RSeq (rev acc) r
-            else match rd f RdForm (c :: r) with
-                 | RForm (Some m) r' => rd f (RdSeq closer (m :: acc)) r'
-                 | RForm None r' => rd f (RdSeq closer acc) r'
-                 | x => x
-                 end
-        end
-    | RdFComps cl st raw acc =>
-        match chars_until cl true raw st false [] s with
-        | CUErr e => RErr e
-        | CUDone content closed rest st' =>
-            match decode raw false content with
-            | None => RErr ELex
-            | Some v =>
-                let acc' := if is_str_empty v then acc else MStr v None :: acc in
-                if closed then RSeq (rev acc') rest
-                else match rd f (RdFComp raw false) rest with
-                     | RSeq cs rest' => rd f (RdFComps cl st' raw (rev cs ++ acc')) rest'
-                     | x => x
-                     end
-            end
-        end
-    | RdFComp raw ts =>
-        let '(sp1, s1) := span is_ws s in
-        match rd f RdOne s1 with
-        | ROne m s2 =>
-            let form_text := firstn (length s1 - length s2) s1 in
-            let '(sp2, s3) := span is_ws s2 in
-            let '(dbg, s4) := match s3 with
-                              | e :: t => if N.eqb e c_eq
-                                          then let '(sp3, t') := span is_ws t in
-                                               (Some (sp1 ++ form_text ++ sp2 ++ [c_eq] ++ sp3), t')
-                                          else (None, s3)
-                              | [] => (None, s3)
-                              end in
-            (* `!` at the very end of input makes conversion "", and the field then fails below *)
-            let '(conv, s5) := match s4 with
-                               | b :: t => if N.eqb b c_bang
-                                           then match t with
-                                                | cv :: t' => (Some cv, t')
-                                                | [] => (None, t)
-                                                end
-                                           else (None, s4)
-                               | [] => (None, s4)
-                               end in
-            let s6 := skip_ws s5 in
-            let pre := match dbg with Some d => [MStr d None] | None => [] end in
-            match s6 with
-            | k :: t =>
-                if N.eqb k c_colon then
-                  match rd f (RdFComps CBrace StNone raw []) t with
-                  | RSeq spec rest => RSeq (pre ++ [MNode (KFComp conv ts) (m :: spec)]) rest
-                  | x => x
-                  end
-                else if N.eqb k c_rc then
-                  let cv := match conv, dbg with
-                            | None, Some _ => Some 114      (* has_debug and conversion is None: "r" *)
-                            | _, _ => conv
-                            end in
-                  RSeq (pre ++ [MNode (KFComp cv ts) [m]]) t
-                else RErr ELex
-            | [] => RErr ELex
-            end
-        | x => x
-        end
+    | RdForm => form_body (rd f) s
+    | RdOne => one_body (rd f) s
+    | RdSeq closer acc => seq_body (rd f) closer acc s
+    | RdFComps cl st raw acc => fcomps_body (rd f) cl st raw acc s
+    | RdFComp raw ts => fcomp_body (rd f) raw ts s
     end
   end.
 
@@ -582,7 +615,7 @@ Fixpoint rd (fuel : nat) (md : mode) (s : text) {struct fuel} : res :=
 Definition read_fuel (s : text) : nat := (2 * length s + 4)%nat.
 Definition read_one (s : text) : res := rd (read_fuel s) RdOne s.
 
-(* "the reader returns r": for all sufficiently large fuel *)
-Definition reads (md : mode) (s : text) (r : res) : Prop := exists n, forall k, rd (n + k) md s = r.
+(* the reader returns r: with some amount of fuel, hence (ReaderFacts.rd_ge) with any larger amount *)
+Definition reads (md : mode) (s : text) (r : res) : Prop := r <> ROut /\ exists n, rd n md s = r.
 
 End Reader.
